@@ -119,7 +119,8 @@ def instr_body(c):
             ('C16-rate-multiplied-exact-when-whole', z3.Implies(z3.IsInt(rate), H('ingest_data_rate') == rate)),
             ('C16-demand-unscaled', H('demand') == S('instrument_demand')),
             ('name-kept', H('name') == S('name')),
-            ('starts-waiting', z3.And(H('status') == enum_code('RunStatus', 'WAITING'), H('total_data_size') == 0))]
+            ('starts-waiting', z3.And(H('status') == enum_code('RunStatus', 'WAITING'), H('total_data_size') == 0)),
+            ('C13-C08-a-new-observation-has-no-actual-start-yet', z3.Select(n.heap('Observation', 'ast.none', B), o))]
 
 
 def zround_(x):
